@@ -236,6 +236,10 @@ def run(ctx):
     # the key for every key length (a key of exactly one block is used as is, not hashed)
     ctx.guard("hmac-keys", "expand/derive/create", lambda: objects.check_hmac_keys(ctx, P))
     ctx.guard("poly1305", "Mac", lambda: check_poly1305(ctx, P))
+    # "never return a value that is not the MAC": the Poly1305 arithmetic underneath the object (clamp, block identity, final
+    # addition, limb bounds, buffering shapes) -- rule instances shared with C05
+    from . import C05 as _C05
+    ctx.guard("poly1305", "arithmetic", lambda: _C05.check_all(ctx, P))
     for mod in ("blake2b", "blake2s"):
         ctx.guard("blake2-mac", mod, lambda: check_blake2_mac(ctx, P, mod))
         ctx.guard("blake2-object", mod, lambda: check_blake2_object(ctx, P, mod))
